@@ -100,6 +100,8 @@ impl Check for C08 {
                 }
                 // a name that leads out of the library (too many "../"): refused like a taken one
                 names.push((format!("../../../out{}", sites), "outside"));
+                // ... and what is no name of a note at all: an anchor, a directory
+                names.push((if sites % 2 == 0 { "#anchor".to_string() } else { "sub/".to_string() }, "outside"));
                 let (name, class) = names[rng.below(names.len())].clone();
                 let new_key = match mdscan::resolve(&name, &dir) {
                     Some(k) => k,
